@@ -331,20 +331,17 @@ fn create_mangled_for_file(
 }
 
 fn add_part(mangled: &mut String, part: &MangledPart) {
-    if part.text.starts_with(|ch: char| ch.is_ascii_digit()) {
-        // if the part text starts with a number,
-        // then prepend a lowercase version of the code
+    if part.text.starts_with(|ch: char| ch.is_ascii_digit() || ch == '_') {
+        // the text of a part must not start with a digit, otherwise it couldn't be told apart
+        // from the length in front of it. so an underscore is put before such a text.
+        //
+        // a text which itself starts with an underscore also gets one, which keeps this
+        // reversible: "1" => "2_1", "_1" => "3__1", "f1" => "2f1".
+        // (this used to put the lowercase part code there, so that the folders `1` and `f1`
+        // produced the same symbols)
         mangled.push_str(&(part.text.len() + 1).to_string());
-        mangled.push(part.kind.to_code().to_ascii_lowercase());
+        mangled.push('_');
         mangled.push_str(&part.text);
-
-        // TODO: what happens in the following situation (where both files exist):
-        // - "/src/1/file.capy"
-        // - "/src/f1/file.capy"
-        // similarly, what happens if the folder contains a '.' which gets converted to a dash
-        // by `FileName::get_components`:
-        // - "/src/program.app/file.capy"
-        // - "/src/program-app/file.capy"
     } else {
         // if the part text doesn't start with a number, then print it normally
         mangled.push_str(&part.text.len().to_string());
